@@ -18,6 +18,15 @@ the value must arrive verbatim - substituted exactly once, never expanded again,
 re-split - and a substitution that does not return within the per-case alarm is a violation.  The
 same texts are also written in the two verbatim forms r"..." and @("...").
 
+Part C enumerates WORDS BUILT AROUND KEYWORDS (`and`/`or` are chain operators only as words of
+their own; the lexer also knows the other Python keywords): every word of up to n tokens over a
+keyword K in {and, or, not, in, is, if, else, for, import} and the decorations {- a 1 . / =} that
+contains K (-or, --and, a-or, or-a, aand, ora, 1or, a.or, a/or, or=1, =and, for, import1 ...), as a
+plain word in the first / middle / last position and directly before / after a REAL `and` / `&&`
+operator, and in the quoting forms.  Oracle unchanged, plus: exactly as many commands run as are
+written on the line (one; two in the operator positions) - every recorder invocation is counted,
+also for the real child (its helper appends one record per run).
+
 Oracle (from the statement + docs/tutorial.rst, docs/strings.rst, docs/macros.rst, env docs):
   * quoted non-raw literal  -> one argument = documented expansion of its Python value;
   * raw literal             -> one argument = its Python value, untouched;
@@ -137,6 +146,7 @@ KSHAPES3 = (("-", "-", "K"), ("a", "-", "K"), ("K", "-", "a"), ("-", "K", "-"), 
 NEXT = "<NEXT-COMMAND>"  # separates the argv of two commands in the chain positions
 # chain positions: the argument directly before / after a REAL operator; two commands must run
 CHAINPOS = ("befand", "aftand", "befamp", "aftamp")
+POS_FAMILY = {"befand": "befop", "befamp": "befop", "aftand": "aftop", "aftamp": "aftop"}  # in keys
 KW_POSITIONS = ("mid", "first", "last") + CHAINPOS
 KW_FORMS_QUICK = ("plain", "sq", "dq", "raw", "f", "tsq", "at", "atlist", "gluepre", "gluesuf", "macro", "macroarg")
 
@@ -381,12 +391,14 @@ def render_line(form, pos, v, cmd):
         return f"y = $({cmd} L {a} R)\n"
     if pos == "befand":
         return f"{cmd} L {a} and {cmd} R\n"
+    # (two more words after the argument, as in "first": `cmd =not R` alone is a valid Python
+    # assignment `cmd = not ![R]` and Python wins; `cmd =not M R` is a command)
     if pos == "aftand":
-        return f"{cmd} L and {cmd} {a} R\n"
+        return f"{cmd} L and {cmd} {a} M R\n"
     if pos == "befamp":
         return f"{cmd} L {a} && {cmd} R\n"
     if pos == "aftamp":
-        return f"{cmd} L && {cmd} {a} R\n"
+        return f"{cmd} L && {cmd} {a} M R\n"
     raise AssertionError(pos)
 
 
@@ -565,7 +577,7 @@ def expected_argv(form, pos, v, expand_env, env, home):
     if pos in ("befand", "befamp"):
         return [{"L"}] + mid + [{NEXT}, {"R"}]
     if pos in ("aftand", "aftamp"):
-        return [{"L"}, {NEXT}] + mid + [{"R"}]
+        return [{"L"}, {NEXT}] + mid + [{"M"}, {"R"}]
     raise AssertionError(pos)
 
 
@@ -888,7 +900,7 @@ def attribute(fails):
             ppart = "direct"
         else:
             ppart = path
-        fk = FAMILY.get(form, form) + ("" if pos == "mid" else "@" + pos) + ("" if e1 else "@E0")
+        fk = FAMILY.get(form, form) + ("" if pos == "mid" else "@" + POS_FAMILY.get(pos, pos)) + ("" if e1 else "@E0")
         key = f"{fk}:{ppart}:{classes_of(v)}:{sig}"
         case_id = (f["form"], f["pos"], f["e1"], f["v"])
         keyed.setdefault((key, case_id), (f, v))
